@@ -44,6 +44,7 @@ func genC18(seed int64, tier string) *Scenario {
 		sc.InitOpts = opts
 	}
 	sc.Knobs["sep"] = sep
+	sc.Plugin = r.Intn(3) == 0
 	exists := map[string]bool{}
 	add := func(p, body string) {
 		if !exists[p] {
@@ -397,7 +398,7 @@ func checkC18(t *testing.T, sc *Scenario) *Verdict {
 	}
 	// equals a fresh server after the events
 	last := probes[len(probes)-1]
-	fresh := &Scenario{Prop: "C18", Files: last.disk, InitOpts: sc.InitOpts, Ops: append([]Op{{Kind: "open", Path: mainPath}}, battery()...)}
+	fresh := &Scenario{Prop: "C18", Files: last.disk, InitOpts: sc.InitOpts, Plugin: sc.Plugin, Ops: append([]Op{{Kind: "open", Path: mainPath}}, battery()...)}
 	fr := Run(t, fresh, Canonical(), Hooks{})
 	v.absorb(fr)
 	if fr.Outcome != OutOK {
